@@ -44,6 +44,9 @@ func verifC19NoOverwrite() {
 		for rev := 0; rev < revs; rev++ {
 			if verifrt.Choice("exists", 2) == 1 {
 				p := r.fileName(f, dir, "00", rev)
+				if r.exists(p) {
+					continue // without <REV> in the name all revisions are the same file
+				}
 				existed = append(existed, p)
 				r.preExisting(p, []byte{'P', byte('0' + len(existed)), ';'})
 			}
